@@ -580,6 +580,9 @@ INVARIANT Export
         sc, rr = obs_ref[len(obs_ref) // 2]
         ctx.sample({'generator': sc['generator'], 'args': sc['args'], 'variables': [v['name'] for v in sc['vars']],
                     'observed_design': rr['design'][:4], 'verdict': verdicts[len(obs_ref) // 2 + 1]})
+    import collections
+    import re
+    ctx.extra['violation_classes'] = dict(collections.Counter(re.sub(r'-?\d+(\.\d+)?', 'N', cl)[:90] for cl, _ in ctx.violations))
     ctx.rule = ('design-variable sets = all 25 subsets of 1-3 variables of the catalogue of DOE.tla (sizes 1-2, scalar and '
                 'array integer bounds, units km->m / degC->degK / degF->degC, scaler/adder/ref/ref0 incl. array and negative '
                 'scalers) x generators: FullFactorial (levels 1,2,3 and four dict forms) compared point-for-point with the '
